@@ -51,8 +51,9 @@ MANIFEST = {
              "invalid_request_judged (for every request tree and header: SOAP fault or 4xx, never an escaping exception), "
              "client_sees_definition_c05 / client_sees_device_tree_c05 (C05's factory model with C08's coercers for all 26 types, "
              "run against the served device document and SCPDs, equals C05's mirror of the description they denote, via "
-             "factory_mirror), call_request_c06 (C06's create_request, read back by body_reads_back, reaches the C14 "
-             "handler with the caller's values, up to the codec interface), judge_*_in_mirror, gen_types_ok over the generated type table. The model is tied to the code by that table (const.py) and a "
+             "factory_mirror), call_request_c06 (C06's create_request on the C08 type model, read back by body_reads_back, reaches the C14 "
+             "handler with the caller's values; codec_agreement: C14's texts are C08's for the int/str/bool rows), "
+             "handler_error_propagates_c07 (C07's decode reads the served fault), judge_*_in_mirror, gen_types_ok over the generated type table. The model is tied to the code by that table (const.py) and a "
              "differential check of served documents, client model, handler inputs, results and statuses; the Lean judge "
              "is evaluated on the implementation's observations; the mocked-request path is cross-checked against a real "
              "HTTP server on loopback."),
